@@ -7,6 +7,14 @@
 // Load*Document from a sandboxed configuration directory) and through
 // verifier.NewVerifierWithOptions. For every accepted document each statement must yield a
 // verification level that enforces integrity unless the statement is skip.
+//
+// Finding keys (oracle clause : document kind : input class):
+//
+//	C09:accepted-invalid:<oci|blob>:<violated rule(s), '+'-joined = operator names>
+//	C09:rejected-valid:<oci|blob>:<value|verifier|json|json-file>
+//	C09:level-error:<oci|blob>             a statement of an accepted document yields no level
+//	C09:integrity-not-enforced:<oci|blob>  ... yields a level that does not enforce integrity (non-skip)
+//	C09:panic:<oci|blob>                   fuzz body only
 package c09
 
 import (
